@@ -734,7 +734,9 @@ class VerilogGenerator:
             link = ""
             
             for paramName in paramNames:
-                str += link + 'parameter ' +  paramName
+                # a parameter declaration needs a value, use the one of this object
+                # (instances override it)
+                str += link + 'parameter {} = {}'.format(paramName, obj.getParameterValue(paramName))
                 link = ',\n\t'
                 
             str += ')\n'
